@@ -137,6 +137,44 @@ decreasing_by
 /-- RFC 6962 consistency proof `PROOF(m, D[n])` (`0 < m ≤ n`). -/
 def proof (m : Nat) (l : List Hash) : List Hash := subproof H m l true
 
+
+/-! ### Frontier and post-order store of the compact tree (specification) -/
+
+/-- `topBit n = splitPoint (n + 1)`: the largest power of two `≤ n` (for `n ≥ 1`). -/
+def topBit (n : Nat) : Nat := splitPoint (n + 1)
+
+/-- Roots of the maximal perfect subtrees in the binary decomposition of `|l|`, largest first: what the
+compact tree keeps as `hashes`. -/
+def frontier : List Hash → List Hash
+  | [] => []
+  | x :: r => mth H ((x :: r).take (topBit (r.length + 1))) :: frontier ((x :: r).drop (topBit (r.length + 1)))
+termination_by l => l.length
+decreasing_by
+  have := splitPoint_pos (r.length + 1 + 1)
+  simp only [List.length_drop, List.length_cons, topBit]; omega
+
+/-- Post-order of all nodes of the perfect tree over `2^j` leaves (leaves included). -/
+def perfectPost : List Hash → List Hash
+  | [] => []
+  | [x] => [x]
+  | x :: y :: r =>
+    perfectPost ((x :: y :: r).take ((r.length + 2) / 2)) ++ perfectPost ((x :: y :: r).drop ((r.length + 2) / 2))
+      ++ [mth H (x :: y :: r)]
+termination_by l => l.length
+decreasing_by
+  · simp only [List.length_take, List.length_cons]; omega
+  · simp only [List.length_drop, List.length_cons]; omega
+
+/-- What the hash store holds after appending `l`: the post-orders of the maximal perfect subtrees, in
+order. -/
+def postorder : List Hash → List Hash
+  | [] => []
+  | x :: r => perfectPost H ((x :: r).take (topBit (r.length + 1))) ++ postorder ((x :: r).drop (topBit (r.length + 1)))
+termination_by l => l.length
+decreasing_by
+  have := splitPoint_pos (r.length + 1 + 1)
+  simp only [List.length_drop, List.length_cons, topBit]; omega
+
 /-! ### Level-by-level presentation: pair adjacent nodes, promote an odd last node unchanged -/
 
 def pairUp : List Hash → List Hash
